@@ -508,3 +508,40 @@ package dag
 //@   ensures [cursor-wraps-only-past-the-highest-clock] old(f.circuitState) >= circuitRed ==>
 //@        ( old(f.currentPage)*PageSize + PageSize > ret(call (*atomic.Uint32).Load #1) ? f.currentPage == 0 : f.currentPage == old(f.currentPage) + 1 )
 //@   requires f.state != nil && f.state.graph != nil && f.state.xorTree != nil && !isNilIface(f.state.graph.db)
+
+// ---- C06: the key a key id denotes "as of the referenced transactions" ----
+// The key handed to the signature check is the key the signer's DID document - resolved by THIS call, as of
+// one of the referenced transactions - lists under that key id: no answer is given without such a resolve
+// (a key remembered from an earlier resolve may since have been removed from the document).
+//@ func (did.VerificationMethods).FindByID
+//@   trusted
+//@   pure heap
+//@ func resolver.GetDIDFromURL
+//@   trusted
+//@   benign
+//@ func did.ParseDIDURL
+//@   trusted
+//@   benign
+//@   ensures isNilIface(result.1) ==> result.0 != nil
+//@ func (resolver.DIDResolver).Resolve
+//@   trusted
+//@   benign
+//@   ensures isNilIface(result.2) ==> result.0 != nil
+//@ func resolvePublicKey
+//@   prop C06 C17
+//@   assume-benign
+//@   ensures [key-of-the-document-resolved-for-this-metadata] isNilIface(result.1) ==> did(call (resolver.DIDResolver).Resolve #1) && isNilIface(ret(call (resolver.DIDResolver).Resolve #1).2)
+//@        && arg(call (resolver.DIDResolver).Resolve #1, 0) == didResolver && arg(call (resolver.DIDResolver).Resolve #1, 2) == &metadata
+//@        && same(arg(call (resolver.DIDResolver).Resolve #1, 1), ret(call resolver.GetDIDFromURL #1).0) && arg(call resolver.GetDIDFromURL #1, 0) == kid
+//@        && did(call (did.VerificationMethod).PublicKey #1) && result.0 == ret(call (did.VerificationMethod).PublicKey #1).0
+//@        && ret(call (did.VerificationMethods).FindByID #1) != nil && same(arg(call (did.VerificationMethod).PublicKey #1, 0), *ret(call (did.VerificationMethods).FindByID #1))
+//@        && arg(call (did.VerificationMethods).FindByID #1, 0) == ret(call (resolver.DIDResolver).Resolve #1).0.VerificationMethod
+//@        && same(arg(call (did.VerificationMethods).FindByID #1, 1), *ret(call did.ParseDIDURL #1).0) && arg(call did.ParseDIDURL #1, 0) == kid
+//@ func (SourceTXKeyResolver).ResolvePublicKey
+//@   prop C06 C17
+//@   assume-benign
+//@   call resolvePublicKey #1 requires [resolved-as-of-a-referenced-transaction] arg(0) == r.Resolver && arg(1) == kid && arg(2).SourceTransaction == &h
+//@        && arg(2).ResolveTime == nil && arg(2).Hash == nil && !arg(2).AllowDeactivated
+//@   ensures [no-key-without-a-resolve-by-this-call] isNilIface(result.1) ==> did(call resolvePublicKey #1) && isNilIface(ret(call resolvePublicKey #1).1)
+//@        && result.0 == ret(call resolvePublicKey #1).0
+//@   ensures [other-errors-are-final] did(call resolvePublicKey #1) && !isNilIface(ret(call resolvePublicKey #1).1) && ret(call resolvePublicKey #1).1 != resolver.ErrNotFound ==> !isNilIface(result.1)
